@@ -127,6 +127,19 @@ CHECKS = {
              "(the ticket queue that enforces this order is not verified). SQLite and real thread timing are outside.",
         ref="DESIGN.md 4 C12",
     ),
+    "C10": dict(
+        text="(a) integer/boolean cores of the converter pairs (int, $SHLVL, bool-or-int, bool, bool-or-none, int-or-none) executed "
+             "symbolically; (b) 20 registered variables covering every converter triple with a numeric, boolean, enum, path or list core "
+             "taken through a real parent Env -> detype() -> nested Env built from that mapping, with boundary-value pools incl. empty "
+             "path entries in every position; (c) histories of 15 kinds of operations (equal-comparing typed/untyped assignments, list "
+             "assignment, in-place mutation through a read and through a held reference, delete, swap / mask / overlay) on the real Env "
+             "with the mapping a child would receive compared, after every step, with a recomputation from scratch and with the stored "
+             "typed values. The solver case-splits the finite-domain choices; each class runs on the real code.",
+        note="Pools, not all values, for non-integer types (floats are IEEE at the C boundary; CrossHair reals are not). LS_COLORS, "
+             "colour dicts, VarPattern, locale and prompt-toolkit setters and the real os.environ mirror are outside. Four known findings "
+             "are listed in known_findings.jsonl.",
+        ref="DESIGN.md 4 C10",
+    ),
 }
 
 NA = {
